@@ -1023,7 +1023,7 @@ Section Steps.
   Qed.
   Lemma step_lag cv s pos F fb ap : cv_samestep cv = false -> (0 < st_rel s)%nat ->
     o_ft (snd (step cv s pos F fb ap)) =
-      proj (st_prev_pos s) cv F + (if adds_fj cv (st_comp s) then st_fj s else 0) - (if cv_subtract cv then st_fold s else 0).
+      proj (st_prev_pos s) (st_prev_cv s) F + (if adds_fj cv (st_comp s) then st_fj s else 0) - (if cv_subtract cv then st_fold s else 0).
   Proof.
     intros H Hr. unfold cv_step. rewrite H. apply Nat.ltb_lt in Hr. rewrite Hr. cbn [snd o_ft andb orb negb].
     destruct (cv_subtract cv); cbn [andb orb negb]; rs; ring.
@@ -1038,10 +1038,10 @@ Section Steps.
     let r := step cv s pos F fb ap in
     let f := applied_force Rops cv ap fb (fjf pos cv) in
     st_prev_pos (fst r) = pos /\ st_fj (fst r) = fjf pos cv /\ st_rel (fst r) = S (st_rel s) /\
-    st_fold (fst r) = (if cv_subtract cv then f else st_fold s) /\
+    st_fold (fst r) = f /\
     o_f (snd r) = f /\ o_forces (snd r) = (if ap then capply pos cv f else fzero Rops) /\
-    st_comp (fst r) = (cv_hide cv && ap)%bool.
-  Proof. unfold cv_step. cbn [fst snd st_prev_pos st_fj st_rel st_fold o_f o_forces st_comp]. repeat split; reflexivity. Qed.
+    st_comp (fst r) = (cv_hide cv && ap)%bool /\ st_prev_cv (fst r) = cv.
+  Proof. unfold cv_step. cbn [fst snd st_prev_pos st_fj st_rel st_fold o_f o_forces st_comp st_prev_cv]. repeat split; reflexivity. Qed.
 
   Lemma estep_eq cv inc s i :
     estep cv inc s i =
@@ -1059,18 +1059,27 @@ Section Steps.
   Definition same_report (cv : colvar) (i : einput) : R :=
     proj (e_pos i) cv (e_force i) + (if cv_hide cv then 0 else fjf (e_pos i) cv).
 
+  (* two consecutive steps whose configuration may differ (parameters changed by script or by the engine between the steps:
+     temperature, subtractAppliedForce, hideJacobian, component flags / coefficients): cv1 at step t-1, cv2 at step t *)
+  Lemma two_steps_lag_gen cv1 cv2 inc s0 i1 i2 : cv_samestep cv2 = false ->
+    o_ft (snd (estep cv2 inc (fst (estep cv1 inc s0 i1)) i2)) =
+      proj (e_pos i1) cv1 (exerted cv1 inc i1)
+      + (if adds_fj cv2 (cv_hide cv1 && e_apply i1) then fjf (e_pos i1) cv1 else 0)
+      - (if cv_subtract cv2 then own_force cv1 i1 else 0).
+  Proof.
+    intros H. rewrite (estep_eq cv2 inc _ i2). cbv zeta. cbn [snd]. rewrite H.
+    rewrite (estep_eq cv1 inc s0 i1). cbv zeta. cbn [fst es_cv es_prev_total].
+    set (F1 := if cv_samestep cv1 then e_force i1 else es_prev_total s0).
+    set (r1 := step cv1 (es_cv s0) (e_pos i1) F1 (e_fb i1) (e_apply i1)).
+    pose proof (step_state cv1 (es_cv s0) (e_pos i1) F1 (e_fb i1) (e_apply i1)) as St. cbv zeta in St. fold r1 in St.
+    destruct St as (Sp & Sj & Sr & Sf & So & Sc & Sm & Sv).
+    rewrite step_lag by (try exact H; rewrite Sr; lia).
+    rewrite Sp, Sj, Sf, Sc, Sm, Sv. unfold exerted, own_force.
+    destruct inc; reflexivity.
+  Qed.
   Lemma two_steps_lag cv inc s0 i1 i2 : cv_samestep cv = false ->
     o_ft (snd (estep cv inc (fst (estep cv inc s0 i1)) i2)) = lag_report cv inc i1.
-  Proof.
-    intros H. rewrite (estep_eq cv inc _ i2). cbv zeta. cbn [snd]. rewrite H.
-    rewrite (estep_eq cv inc s0 i1). cbv zeta. cbn [fst es_cv es_prev_total]. rewrite H.
-    set (r1 := step cv (es_cv s0) (e_pos i1) (es_prev_total s0) (e_fb i1) (e_apply i1)).
-    pose proof (step_state cv (es_cv s0) (e_pos i1) (es_prev_total s0) (e_fb i1) (e_apply i1)) as St. cbv zeta in St. fold r1 in St.
-    destruct St as (Sp & Sj & Sr & Sf & So & Sc & Sm).
-    rewrite step_lag by (try exact H; rewrite Sr; lia).
-    rewrite Sp, Sj, Sf, Sc, Sm. unfold lag_report, exerted, own_force.
-    destruct inc, (cv_subtract cv); reflexivity.
-  Qed.
+  Proof. intros H. rewrite two_steps_lag_gen by exact H. reflexivity. Qed.
   Lemma one_step_same cv inc s i : cv_samestep cv = true -> o_ft (snd (estep cv inc s i)) = same_report cv i.
   Proof. intros H. rewrite estep_eq. cbv zeta. cbn [snd]. rewrite H. apply step_same. exact H. Qed.
 
@@ -1667,6 +1676,18 @@ Lemma thm_timing : forall (cell : option RV) (mass : nat -> R) (cv : colvar) (in
     + (if adds_fj cv (cv_hide cv && e_apply i1) then cv_fj Rops PI cell mass (e_pos i1) cv else 0)
     - (if cv_subtract cv then applied_force Rops cv (e_apply i1) (e_fb i1) (cv_fj Rops PI cell mass (e_pos i1) cv) else 0).
 Proof. exact history_lag. Qed.
+Lemma thm_timing_parameter_change : forall (cell : option RV) (mass : nat -> R) (cv1 cv2 : colvar) (inc : bool) (s0 : estate) (i1 i2 : einput),
+  cv_samestep cv2 = false ->
+  o_ft (snd (eng_step Rops PI cell mass cv2 inc (fst (eng_step Rops PI cell mass cv1 inc s0 i1)) i2)) =
+    cv_proj Rops PI cell mass (e_pos i1) cv1
+      (if inc then fadd Rops (e_force i1)
+                   (if e_apply i1 then cv_apply Rops PI cell mass (e_pos i1) cv1
+                                         (applied_force Rops cv1 (e_apply i1) (e_fb i1) (cv_fj Rops PI cell mass (e_pos i1) cv1))
+                    else fzero Rops)
+       else e_force i1)
+    + (if adds_fj cv2 (cv_hide cv1 && e_apply i1) then cv_fj Rops PI cell mass (e_pos i1) cv1 else 0)
+    - (if cv_subtract cv2 then applied_force Rops cv1 (e_apply i1) (e_fb i1) (cv_fj Rops PI cell mass (e_pos i1) cv1) else 0).
+Proof. exact two_steps_lag_gen. Qed.
 Lemma thm_timing_same_step : forall (cell : option RV) (mass : nat -> R) (cv : colvar) (inc : bool) (i : einput),
   cv_samestep cv = true -> forall (pre : list einput) (s : estate),
   last_ft (snd (eng_run Rops PI cell mass cv inc s (pre ++ [i]))) =
